@@ -275,6 +275,13 @@ def check_case(case, rec):
         with np.errstate(invalid='ignore'):
             behind = (zd - A['z'][g]) * A['N'][g] < 0
         lost_img = lost & reach & ~behind
+        if g + 1 < A['z'].shape[0]:
+            # ... and a ray that meets the NEXT surface before it would reach the dummy plane (the plane cuts that
+            # surface's sag at the ray's height) leaves the relation's domain too: behind the plane the tracer can only
+            # find another root of that surface
+            with np.errstate(invalid='ignore'):
+                cut = (A['z'][g + 1] - zd) * A['N'][g] < 0
+            lost = lost | (cut & np.isfinite(A['x'][g + 1]))
         rec.check('dummy-surface', reach.sum() < 6 or lost_img.sum() <= 0.5 * reach.sum(), key='dummy-surface:loses-rays',
                   msg=f'a dummy plane after surface {g} lost {int(lost_img.sum())} of {int(reach.sum())} rays that reach the image')
         B = {f: np.delete(v, g + 1, axis=0) for f, v in B.items()}
